@@ -49,6 +49,11 @@ CHECKS['C03'] = ('differential exploration of the two library calculators: devia
                  'fragment types + n, charge -3..4, isotope, adducts, average mode, use_isotope_on_mods); mass == '
                  'chem_mass(comp_mass)+delta and == chem_mass(comp(estimate_delta)); anchored to the independent reference '
                  'at low levels; every Unimod and every self-consistent PSI-MOD entry', 'DESIGN.md section 4 / C03')
+CHECKS['C05'] = ('every residue string of length 2..3 (quick) / 2..4 (thorough) over the 22 unambiguous-mass letters, plus '
+                 'modified peptides (<=2 numeric/formula modifications on residues/termini); every ion of all 6 terminal, 9 '
+                 'internal and the immonium series at charges 1..4, monoisotopic and average, against independently '
+                 'computed backbone-cleavage chemistry from the frozen NIST table; b/y complementarity; the same through '
+                 'mass(ion_type=...)', 'DESIGN.md section 4 / C05')
 NOT_APPLICABLE = {}
 
 
